@@ -22,6 +22,8 @@ type seed struct {
 }
 
 var seeds = []seed{
+	{"ParOr truncates an unclamped chunk start into the key type", "U1", "parallel.go", "\t\t\t\tstart: uint16(minOfInt(int(lKey)+i*chunkSize, int(hKey))),\n", "\t\t\t\tstart: uint16(int(lKey) + i*chunkSize),\n", "trunc:roaring.ParOr"},
+	{"NextAbsentValue tests the error of safeMaximum the wrong way round", "B8", "roaring.go", "\t\t\tif containerKey == MaxUint16 {\n\t\t\t\treturn -1\n\t\t\t}\n\t\t\treturn (int64(containerKey) + 1) << 16\n", "\t\t\tval, err := container.safeMaximum()\n\t\t\tif err == nil {\n\t\t\t\treturn -1\n\t\t\t}\n\t\t\treturn int64(val) + 1\n", "NextAbsentValue|value of"},
 	{"the in-place lazy union of ParOr asks for a read-only container", "A2.32", "parallel.go", "getFastContainerAtIndex(idx1, true)", "getFastContainerAtIndex(idx1, false)", "lazyIOrOnRange"},
 	{"32-bit BSI Increment forgets the existence bitmap", "A1.bsi", "BitSliceIndexing/bsi.go", "\tb.addDigit(foundSet, 0)\n\tb.eBM.Or(foundSet)\n", "\tb.addDigit(foundSet, 0)\n", "Increment|existence bitmap"},
 	{"64-bit Flip stores a fresh bucket without testing it", "F3.64", "roaring64/roaring64.go", "\t\t\tc := roaring.NewBitmap()\n\t\t\tc.Flip(containerStart, containerLast)\n\t\t\tif !c.IsEmpty() {\n\t\t\t\trb.highlowcontainer.insertNewKeyValueAt(-i-1, uint32(hb), c)\n\t\t\t}\n", "\t\t\tc := roaring.NewBitmap()\n\t\t\tc.Flip(containerStart, containerLast)\n\t\t\trb.highlowcontainer.insertNewKeyValueAt(-i-1, uint32(hb), c)\n", "(*roaring64.Bitmap).Flip|may-empty"},
